@@ -27,6 +27,7 @@ anyhow = "1"
 rand = "0.8"
 tokio = { version = "1", features = ["full"] }
 bit-vec = "0.6"
+assert_matches = "1.5.0"
 num-bigint = "0.4"
 prost = "0.12"
 time = "0.3"
@@ -48,7 +49,7 @@ def ensure_crate():
     shutil.copy(NODE + '/Cargo.lock', CRATE + '/Cargo.lock')
 
 
-def run_replay(name, rust_src, release=False, timeout=1500):
+def run_replay(name, rust_src, release=False, timeout=1500, rustflags=None):
     """returns dict(reproduced: bool|None, path, output). reproduced=True iff the generated test fails."""
     ensure_crate()
     os.makedirs(VERIF + '/replay', exist_ok=True)
@@ -60,7 +61,10 @@ def run_replay(name, rust_src, release=False, timeout=1500):
     shutil.copy(keep, f'{CRATE}/tests/{name}.rs')
     env = dict(os.environ, CARGO_NET_OFFLINE='true', CARGO_TERM_COLOR='never', RUST_BACKTRACE='0')
     env.pop('RUSTUP_TOOLCHAIN', None)
-    cmd = ['cargo', 'test', '--offline', '--test', name, '--target-dir', TARGET + '/replay']
+    tdir = TARGET + '/replay'
+    if rustflags:
+        env['RUSTFLAGS'] = rustflags; tdir = TARGET + '/replay-hooks'
+    cmd = ['cargo', 'test', '--offline', '--test', name, '--target-dir', tdir]
     if release: cmd.append('--release')
     cmd += ['--', '--nocapture', '--test-threads', '1']
     t0 = time.time()
